@@ -2418,6 +2418,177 @@ def probe_known():
 # }}}
 
 
+# ---- field normalisation at construction (__post_init__) ---------------------------------------------
+
+class _DeclaredHashableMapping:
+    """a Mapping that DECLARES __hash__ (so isinstance(m, Hashable) holds) while hashing raises —
+    like types.MappingProxyType on CPython 3.12: only an actual hash() call tells"""
+    def __init__(self, d):
+        self._d = d
+
+    def __getitem__(self, k):
+        return self._d[k]
+
+    def __iter__(self):
+        return iter(self._d)
+
+    def __len__(self):
+        return len(self._d)
+
+    def __hash__(self):
+        return hash(self._d)             # raises TypeError: self._d is a dict
+
+
+def _mapping_kinds():
+    import collections
+    import types
+
+    from immutabledict import immutabledict
+    collections.abc.Mapping.register(_DeclaredHashableMapping)
+    return {
+        "dict": lambda d: d,
+        "ordered": lambda d: collections.OrderedDict(d),
+        "proxy": lambda d: types.MappingProxyType(d),
+        "chainmap": lambda d: collections.ChainMap(d),
+        "userdict": lambda d: collections.UserDict(d),
+        "immutabledict": lambda d: immutabledict(d),
+        "declared-hashable": lambda d: _DeclaredHashableMapping(d),
+    }
+
+
+class PostInitStream(Stream):
+    """Nodes whose constructor NORMALISES a field (keyword mappings of calls, comparison operators
+    given by name, a CSE scope of None): whatever spelling the caller used, the node must be the
+    structural twin of the one built from the normal form — equal both ways, equal hash (so hashing
+    must not raise), one element in a set, found as a dict key — must stay so after the caller's
+    own mapping object is mutated, and copies / identity-mapped trees stay in its class."""
+    name = "post-init-normalisation"
+    has_model = False
+
+    def cases(self, rng, tier):
+        n = 40 if tier == "quick" else 600
+        kinds = sorted(_mapping_kinds())
+        for i in range(n):
+            names = rng.sample(["k", "j", "a", "zz", "w"], rng.randint(0, 3))
+            vals = [rng.choice([1, 2.5, True, "x", "y+1", "f(x)"]) for _ in names]
+            for kind in kinds:
+                yield {"what": "kw", "kind": kind, "names": names, "vals": vals,
+                       "nargs": rng.randint(0, 2), "mutate": rng.random() < 0.6}
+        for opn in ("eq", "ne", "le", "ge", "lt", "gt", "==", "!=", "<=", ">=", "<", ">", "=", "is", ""):
+            yield {"what": "cmp", "op": opn}
+        for scope in (None, "pymbolic_eval", "pymbolic_expr", "pymbolic_global"):
+            for prefix in (None, "c"):
+                yield {"what": "cse", "scope": scope, "prefix": prefix}
+
+    def run_impl(self, pl):
+        return "(oracle-only)"
+
+    @staticmethod
+    def _val(v):
+        from pymbolic import parse
+        return parse(v) if isinstance(v, str) else v
+
+    def oracle(self, pl):
+        import copy
+        import warnings
+
+        import pymbolic.primitives as p
+        from immutabledict import immutabledict
+        from pymbolic.mapper import IdentityMapper
+        with warnings.catch_warnings():
+            warnings.simplefilter("ignore")
+            if pl["what"] == "kw":
+                src = {k: self._val(v) for k, v in zip(pl["names"], pl["vals"])}
+                args = tuple(p.Variable(f"p{i}") for i in range(pl["nargs"]))
+                ref = p.CallWithKwargs(p.Variable("f"), args, immutabledict(dict(src)))
+                try:
+                    node = p.CallWithKwargs(p.Variable("f"), args, _mapping_kinds()[pl["kind"]](src))
+                except Exception as ex:
+                    return Failure(f"post-init-raises:CallWithKwargs:{pl['kind']}", repr(ex), pl)
+                if pl["mutate"]:
+                    src["__later__"] = 0          # the caller's mapping changes afterwards
+                    src.pop(next(iter(src)))
+                why = self._twin(node, ref)
+                if why is None:
+                    for how, mk in (("copy", copy.copy), ("deepcopy", copy.deepcopy),
+                                    ("identity-mapper", lambda e: IdentityMapper()(e))):
+                        try:
+                            c = mk(p.Sum((node, 1))).children[0]
+                        except Exception as ex:
+                            why = f"{how} raises {ex!r}"
+                            break
+                        why = self._twin(c, ref)
+                        if why is not None:
+                            why = f"after {how}: {why}"
+                            break
+                if why is not None:
+                    return Failure(f"post-init-not-normalised:CallWithKwargs:{pl['kind']}",
+                                   f"kw_parameters given as {pl['kind']} {pl['names']}: {why}", pl)
+                return None
+            x, y = p.Variable("x"), p.Variable("y")
+            if pl["what"] == "cmp":
+                table = {"eq": "==", "ne": "!=", "le": "<=", "ge": ">=", "lt": "<", "gt": ">"}
+                op = pl["op"]
+                sym = table.get(op, op)
+                valid = sym in table.values()
+                try:
+                    node = p.Comparison(x, op, y)
+                except Exception as ex:
+                    if valid:
+                        return Failure("post-init-raises:Comparison", f"operator {op!r}: {ex!r}", pl)
+                    return None
+                if not valid:
+                    return Failure("post-init-accepts-invalid:Comparison",
+                                   f"Comparison(x, {op!r}, y) was accepted", pl)
+                why = self._twin(node, p.Comparison(x, sym, y))
+                if why is None and node.operator != sym:
+                    why = f"operator field is {node.operator!r}, expected {sym!r}"
+                if why is not None:
+                    return Failure("post-init-not-normalised:Comparison", f"operator {op!r}: {why}", pl)
+                return None
+            scope = pl["scope"]
+            try:
+                node = p.CommonSubexpression(x + y, pl["prefix"], scope)
+            except Exception as ex:
+                return Failure("post-init-raises:CommonSubexpression", repr(ex), pl)
+            ref = p.CommonSubexpression(x + y, pl["prefix"],
+                                        p.cse_scope.EVALUATION if scope is None else scope)
+            why = self._twin(node, ref)
+            if why is not None:
+                return Failure("post-init-not-normalised:CommonSubexpression", f"scope {scope!r}: {why}", pl)
+            return None
+
+    @staticmethod
+    def _twin(a, b):
+        """None when `a` behaves as the structural twin of `b`"""
+        try:
+            if not (a == b and b == a):
+                return "not == to the node built from the normal form"
+            if a != b or b != a:
+                return "!= answers True for equal nodes"
+            if hash(a) != hash(b):
+                return "hash differs from the node built from the normal form"
+            if len({a, b}) != 1 or {a: 1}.get(b) != 1 or {b: 1}.get(a) != 1:
+                return "not interchangeable as set element / dict key"
+        except Exception as ex:
+            return f"comparing / hashing raises {ex!r}"
+        return None
+
+    def nontrivial_key(self, pl, model, impl):
+        import json
+        return json.dumps(pl, sort_keys=True)
+
+    def stats(self, pl, mo, io, acc):
+        k = pl["what"] + (":" + pl["kind"] if pl["what"] == "kw" else "")
+        acc[k] = acc.get(k, 0) + 1
+
+
+
+def extract_postinit(ctx=None):
+    from extract.postinit import extract_postinit as ex
+    return ex(ctx)
+
+
 def extract(ctx=None):
     from extract.classes import extract_classes
     return extract_classes(ctx)
@@ -2427,9 +2598,9 @@ PROP = Prop(
     id="C01",
     title="Expression nodes: structural equality, consistent hashing, immutability",
     lean_targets=["PV.Properties.C01"],
-    extractors=[extract],
+    extractors=[extract, extract_postinit],
     streams=[StockTriples(), TableTriples(), OwnEqStream(), RationalInitStream(), FrozenStream(),
-             HistoryStream(), ModeStream(), CrossProcessStream(), CopyStream()],
+             HistoryStream(), ModeStream(), CrossProcessStream(), CopyStream(), PostInitStream()],
     probes=[probe_known],
     trusted_base=[
         "Lean 4.33 kernel; axioms propext, Classical.choice, Quot.sound only",
